@@ -57,6 +57,16 @@ pub fn run(name: &str, a: &Args) -> Option<String> {
                 assert!(e.to_jde_tdb_duration().to_parts() == (tdb + jd1900 + j2000).to_parts());
                 assert!(feq(e.to_jde_et_days(), e.to_jde_et_duration().to_unit(Unit::Day)) && feq(e.to_jde_tdb_days(), e.to_jde_tdb_duration().to_unit(Unit::Day)));
                 assert!(feq(e.to_jde_et(Unit::Second), e.to_jde_et_duration().to_unit(Unit::Second)));
+                // {:e} prints in TDB, {:E} in ET: the same text as Display of the epoch converted to that scale
+                if e.year().abs() < 100_000 {
+                    assert!(format!("{e:e}") == e.to_gregorian_str(TimeScale::TDB) && format!("{e:E}") == e.to_gregorian_str(TimeScale::ET));
+                    assert!(format!("{e:e}") == format!("{}", e.to_time_scale(TimeScale::TDB)) && format!("{e:E}") == format!("{}", e.to_time_scale(TimeScale::ET)));
+                }
+            }
+            // {:p} prints the UNIX seconds, {:o} the GPST nanoseconds
+            assert!(format!("{e:p}") == format!("{}", e.to_unix_seconds()));
+            if let Ok(gn) = e.to_gpst_nanoseconds() {
+                assert!(format!("{e:o}") == format!("{gn}"));
             }
             "1".to_string()
         }
@@ -101,6 +111,18 @@ pub fn run(name: &str, a: &Args) -> Option<String> {
             assert!(t.uses_leap_seconds() == (t == TimeScale::UTC));
             assert!(t.is_gnss() == matches!(t, TimeScale::GPST | TimeScale::GST | TimeScale::BDT | TimeScale::QZSST));
             assert!(Duration::from_parts(c, n).is_negative() == (Duration::from_parts(c, n).total_nanoseconds() < 0));
+            // a unit in seconds is the float view of one such unit, and from_seconds is its reciprocal
+            let u = a.unit(2);
+            let one = (u * 1_i64).to_seconds();   // (sub-second units: to_seconds multiplies the nanosecond count by 1e-9, one rounding away from the literal)
+            assert!((u.in_seconds() - one).abs() <= one * 4.0 * f64::EPSILON && feq(u.from_seconds(), 1.0 / u.in_seconds()));
+            assert!(u.in_seconds() == [1e-9, 1e-6, 1e-3, 1.0, 60.0, 3600.0, 86400.0, 604800.0, 3155760000.0][a.z(2) as usize]);
+            // whole-valued float fields compose like the integer fields (every product is exact in f64)
+            let (d, h, mi, sc, ms, us, nn) = (n % 40_000, (n / 7) % 30, (n / 11) % 70, (n / 13) % 70, (n / 17) % 1100, (n / 19) % 1100, (n / 23) % 1100);
+            let sg = if c < 0 { -1_i8 } else { 1 };
+            assert!(
+                Duration::compose_f64(sg, d as f64, h as f64, mi as f64, sc as f64, ms as f64, us as f64, nn as f64).to_parts()
+                    == Duration::compose(sg, d, h, mi, sc, ms, us, nn).to_parts()
+            );
             "1".to_string()
         }
         _ => return None,
